@@ -62,6 +62,10 @@ func compareAny(a Value, b Value) int {
 
 func CompareVals(a []Value, b []Value) int {
 	for i, v := range a {
+		if i >= len(b) {
+			// b is the beginning of a, the shorter one is first
+			return 1
+		}
 		c := compareAny(v, b[i])
 		if c < 0 {
 			return c
@@ -69,6 +73,9 @@ func CompareVals(a []Value, b []Value) int {
 		if c > 0 {
 			return c
 		}
+	}
+	if len(a) < len(b) {
+		return -1
 	}
 	return 0
 }
